@@ -136,6 +136,11 @@ def h_seq(n, full_flags):
     def h(p):
         f = {k: (bool(p.choose(2, k)) if (full_flags or k in ("page_cached", "def_key")) else False) for k in FLAGS}
         ops = ["render-c1"] + [OPS[p.choose(len(OPS), "op%d" % i)] for i in range(n)] + ["render-c1"]
+        if n <= 1:
+            # an operation on the cache before the template was ever rendered
+            k = p.choose(len(OPS) + 1, "operation_before_the_first_render")
+            if k:
+                ops = [OPS[k - 1]] + ops
         res, log = run_ops(TP, f, ops)
         return dict(f=f, ops=ops, res=res, log=log)
     return h
